@@ -215,8 +215,21 @@ def binding_a(ck, exe, gencfg, nt, samples, path, gen, env):
     total = nmm = crashes = 0
     failed = {}
     cut = False
+    seen = set()
+    dups = 0
     for ch in common.chunks(path, 8000):
-        behs = vlib.parse_behaviours("".join(ch))
+        behs = []
+        for beh in vlib.parse_behaviours("".join(ch)):
+            # the same calls reached through different draft documents (single calls made before a document is used)
+            if all(s["a"] in ("init", "assign", "remove") for s in beh):
+                k = common.callkey(beh)
+                if k in seen:
+                    dups += 1
+                    continue
+                seen.add(k)
+            behs.append(beh)
+        if not behs:
+            continue
         recs, _ = vlib.run_driver(exe, script(behs), env=env, timeout=900)
         for mm in vlib.compare(behs, recs, match):
             failed[common.callkey(behs[mm["b"]])] = behs[mm["b"]]
@@ -252,12 +265,12 @@ def binding_a(ck, exe, gencfg, nt, samples, path, gen, env):
                 ck.violation(sig, {"binding": "A(replay)", "part": "x10", "behaviour": rootb[mm["b"]], "step": mm["i"],
                                    "why": mm["why"], "record": mm["rec"]})
     # draft steps are transitions but not calls: fewer lines than transitions
-    if not cut and not (1 <= total <= gen.generated):
+    if not cut and not (1 <= total + dups <= gen.generated):
         raise vlib.MachineryError("X10 behaviour export incomplete: %d lines for %d transitions" % (total, gen.generated))
     ck.cov["evaluations"] += total
     ck.notes.setdefault("x10_replay", []).append({"cfg": gencfg, "behaviours": total, "mismatches": nmm,
                                                   "mismatches_without_failed_prefix": roots, "signatures": persig,
-                                                  "cut_after_crashes": cut, "tlc_generated": gen.generated,
+                                                  "cut_after_crashes": cut, "tlc_generated": gen.generated, "same_calls_skipped": dups,
                                                   "tlc_wall_s": round(gen.wall, 1)})
     return total
 
